@@ -59,11 +59,12 @@ def code_objects(*owners):
 _STORE_LINES = {}
 
 
-def store_lines(codes):
+def store_lines(codes, entries=False):
     """{(code, line)} of the statements that store or delete an attribute (STORE_ATTR / DELETE_ATTR / a call of
-    setattr or delattr), plus the statement that follows each of them in the same function."""
+    setattr or delattr), plus the statement that follows each of them in the same function; with `entries` also the
+    first statement of every function."""
     import dis
-    memo = tuple(codes)
+    memo = (tuple(codes), entries)
     if memo in _STORE_LINES:
         return _STORE_LINES[memo]
     out = _STORE_LINES.setdefault(memo, set())
@@ -83,6 +84,11 @@ def store_lines(codes):
             later = [x for x in lines if x > ln]
             if later:
                 out.add((code, later[0]))
+        # ... and the first statement of every function: a thread may also be held up between the steps of a call (after
+        # its transaction, before it reads or removes a value file), where there is no store
+        body = [x for x in lines if x > code.co_firstlineno] if entries else []
+        if body and code.co_name not in ('<genexpr>', '<listcomp>', '<lambda>', '<dictcomp>', '<setcomp>'):
+            out.add((code, body[0]))
     return out
 
 
@@ -119,7 +125,7 @@ class LineGates:
         self.events = 0
         # only_stores: gates only at the statements that store (or delete) an attribute - where a thread publishes
         # state on an object other threads may share - and at the statement executed right after each of them
-        self.only = store_lines(self.codes) if only_stores else None
+        self.only = store_lines(self.codes, entries=only_stores == 'with entries') if only_stores else None
 
     def _line(self, code, line):
         if self.only is not None and (code, line) not in self.only:
